@@ -3,6 +3,7 @@ package main
 // Symbolic executor over go/ssa (naive form): generates obligations.
 
 import (
+	"strconv"
 	"regexp"
 	"time"
 	"os"
@@ -52,6 +53,7 @@ type Exec struct {
 	cellCtr int
 	paths int
 	maxPaths int
+	deadline time.Time // generation budget of the function being verified
 	limits []string // tool limits / abstractions taken
 	abstr map[string]bool
 	entry *State // entry snapshot for old()
@@ -721,6 +723,7 @@ func (x *Exec) VerifyFunc(fn *ssa.Function, fc *FuncContract, name string) (obls
 	x.fired = map[*Clause]bool{}
 	x.forks, x.pruned = 0, 0
 	x.paths = 0
+	x.deadline = time.Now().Add(genBudget())
 	x.returned = 0
 	x.curPkg = x.P.rootPkg(fn)
 	defer func() {
@@ -973,6 +976,9 @@ func (x *Exec) run(st *State) {
 			if x.paths > x.maxPaths {
 				x.limit("path explosion (> %d paths)", x.maxPaths)
 			}
+			if x.paths%8 == 0 && time.Now().After(x.deadline) {
+				x.limit("generating the obligations of %s takes longer than %v (a loop without an invariant, or too many paths)", x.fname, genBudget())
+			}
 			st2 := st.clone()
 			st.assume(ct)
 			st.note("%s b%d(%s): %s", x.P.FuncName(fr.Fn), fr.Block.Index, fr.Block.Comment, "then")
@@ -1208,6 +1214,14 @@ func (x *Exec) runDefers(st *State, fr *Frame) bool {
 		}
 	}
 	return true
+}
+
+// genBudget: wall-clock budget for generating the obligations of one function (GOVC_GEN_BUDGET seconds).
+func genBudget() time.Duration {
+	if v, err := strconv.Atoi(os.Getenv("GOVC_GEN_BUDGET")); err == nil && v > 0 {
+		return time.Duration(v) * time.Second
+	}
+	return 150 * time.Second
 }
 
 // gotoBlock transfers control; returns false if the path ends here (loop cut).
@@ -1857,7 +1871,8 @@ var _ = token.NoPos
 func (x *Exec) frameObligations(st *State, env *Env, fc *FuncContract) {
 	names, goals := x.frameGoals(st, env, fc, nil)
 	for _, hn := range names {
-		x.oblige(st, "frame", hn, fc.Props, goals[hn], fc.Where, "only the declared locations of "+hn+" are modified")
+		// every caller, whatever property it is verified for, relies on the declared frame: "*"
+		x.oblige(st, "frame", hn, append(append([]string{}, fc.Props...), "*"), goals[hn], fc.Where, "only the declared locations of "+hn+" are modified")
 	}
 }
 
